@@ -19,7 +19,7 @@ from scico.linop import LinearOperator
 from scico.numpy import Array, BlockArray
 from scico.numpy.linalg import norm
 
-from ._common import Optimizer
+from ._common import Optimizer, _all_finite
 
 
 class LinearizedADMM(Optimizer):
@@ -127,9 +127,9 @@ class LinearizedADMM(Optimizer):
         a solver working variable.
         """
         return (
-            snp.all(snp.isfinite(self.x))
-            and snp.all(snp.isfinite(self.z))
-            and snp.all(snp.isfinite(self.u))
+            _all_finite(self.x)
+            and _all_finite(self.z)
+            and _all_finite(self.u)
         )
 
     def _objective_evaluatable(self):
